@@ -376,6 +376,57 @@ func checkC07(c *mc.Ctx) {
 		c.Ev.Class("pmt-lists-pmt-pids", n)
 		c.Ev.AddScenario(mc.Scenario{Name: "pmt-lists-pmt-pids-merges", SpaceSize: n, Executed: n, Exhaustive: true, Bound: "PAT first, then all merges of two PMT units on one PMT PID (listing both PMT PIDs as elementary PIDs) with three PMT units on the other"})
 	}
+	// PMT units of two PMT PIDs in front of, around and behind the PAT that announces them: a unit of a PID the PAT
+	// has not announced yet is judged when it is flushed (by the PID's next unit start, or at the end of the stream), so
+	// a PMT is delivered exactly when the PAT arrives before the packet that flushes it - on each PID by itself,
+	// whatever the other PMT PID has pending
+	{
+		var n int64
+		ccs := []uint8{4, 8, 12}
+		pat := modelPAT(1, 0x200, 2, 0x201)
+		mk := func(pid uint16, prog uint16, v uint8, cc *uint8) []*ref.Pkt {
+			return Packetize(PSIUnit(pid, 0, [][]byte{SecPMT(modelPMT(prog, 0x100, 1+int(v)), ref.SecHdr{CNI: true, Version: v})}, nil), nil, cc, true)
+		}
+		lists := [][]*ref.Pkt{
+			Packetize(PSIUnit(0, 0, [][]byte{SecPAT(pat, ref.SecHdr{CNI: true})}, nil), nil, &ccs[0], true),
+			append(mk(0x200, 1, 0, &ccs[1]), mk(0x200, 1, 1, &ccs[1])...),
+			append(mk(0x201, 2, 0, &ccs[2]), mk(0x201, 2, 1, &ccs[2])...),
+		}
+		lens := []int{len(lists[0]), len(lists[1]), len(lists[2])}
+		if lens[0] != 1 || lens[1] != 2 || lens[2] != 2 {
+			panic("pmts-around-the-pat: units are expected to be one packet each")
+		}
+		mc.Merges(lens, func(o []int) bool {
+			st := BuildStream("pmts-around-the-pat", lists, append([]int{}, o...), nil)
+			out := DemuxBytes(st.Bytes)
+			patPos := -1
+			pos := map[int][]int{}
+			for i, k := range o {
+				if k == 0 {
+					patPos = i
+				} else {
+					pos[k] = append(pos[k], i)
+				}
+			}
+			got := byPID(out.Data)
+			for k, pid := range map[int]uint16{1: 0x200, 2: 0x201} {
+				// unit 0 is flushed by the start of unit 1 (or on completion when the PAT is already in), unit 1 at the end
+				want := 1
+				if patPos < pos[k][1] {
+					want = 2
+				}
+				if len(got[pid]) != want || out.Panic != nil || len(out.Errs) > 0 {
+					c.Rep.Report("pmt-pid-affected-by-another-pmt", map[string]any{"kind": "stream", "what": fmt.Sprintf("order %v", o), "bytes": mc.Hex(st.Bytes),
+						"message": fmt.Sprintf("PMT PID %#x carries two PMTs (positions %v), the PAT is at position %d: %d PMTs delivered, %d expected (errors %v)", pid, pos[k], patPos, len(got[pid]), want, errStrings(out.Errs))})
+				}
+			}
+			n++
+			return true
+		})
+		c.Ev.DistinctAdd(n)
+		c.Ev.Class("pmts-around-the-pat", n)
+		c.Ev.AddScenario(mc.Scenario{Name: "pmts-around-the-pat-merges", SpaceSize: n, Executed: n, Exhaustive: true, Bound: "all merges of the PAT with two PMT units on each of two PMT PIDs (the PAT anywhere)"})
+	}
 	// byte-identical payload units on several PIDs at once (the same audio on two PIDs, one PMT section carried on
 	// the PMT PIDs of two programmes, the same SDT on the SDT PID and on a PMT PID): what a PID delivers carries
 	// that PID, whatever an identical unit on another PID has just delivered
